@@ -76,10 +76,18 @@ class NP(shim.SymNumpy):
         self.trace.append(("array_equal", True))
         return True
 
-    def allclose(self, a, b, **kw):
-        r = super().allclose(a, b, **kw)
-        self.trace.append(("allclose", bool(r)))
-        return r
+    def allclose(self, a, b, rtol=1e-05, atol=1e-08, equal_nan=False):
+        """all(isclose(a, b)) evaluated element by element with early exit (same value; avoids forking on the sign of
+        differences that are never looked at)"""
+        if not (shim._is_obj(a) or shim._is_obj(b)):
+            return realnp.allclose(a, b, rtol=rtol, atol=atol, equal_nan=equal_nan)
+        a2, b2 = realnp.broadcast_arrays(realnp.asarray(a, dtype=object), realnp.asarray(b, dtype=object))
+        for idx in realnp.ndindex(a2.shape):
+            if not _truth(self.isclose(a2[idx], b2[idx], rtol=rtol, atol=atol)):
+                self.trace.append(("allclose", False))
+                return False
+        self.trace.append(("allclose", True))
+        return True
 
 
 def load():
@@ -153,6 +161,30 @@ def explore(fn, max_paths=512, timeout_ms=5000):
     _install_memo()
     pm = PM(max_paths, timeout_ms)
     return pm.explore(fn), pm
+
+
+# ---------------------------------------------------------------------------
+# bounded replay effort: one replayed counterexample per (case, key) is enough
+# ---------------------------------------------------------------------------
+_STATE = {}
+
+
+def decide(log, v, key, **kw):
+    """log.decide, except that once `key` has a replayed violation in this case (or two failed obligations whose
+    candidates did not reproduce) further failing obligations of the same key are recorded without new replay runs."""
+    if v.holds:
+        return log.decide(v, key=key, **kw)
+    st = _STATE.setdefault(id(log), {"violated": set(), "failed": {}})
+    if key in st["violated"] or st["failed"].get(key, 0) >= 2:
+        log.obligations.append({"case": log.case, "what": v.what, "status": v.status, "time_s": round(v.time, 4), "residual_terms": v.nterms})
+        return False
+    nv = len(log.violations)
+    ok = log.decide(v, key=key, **kw)
+    if len(log.violations) > nv:
+        st["violated"].add(key)
+    else:
+        st["failed"][key] = st["failed"].get(key, 0) + 1
+    return ok
 
 
 # ---------------------------------------------------------------------------
@@ -252,14 +284,14 @@ def case_basis(log, mode, n, deg, mode_N=False, raw_input=False):
                     tot = tot + v * uj**m
                 what = ("sum_j p_j(x) == 1" if m == 0 else "sum_j p_j(x) u_j^%d == u(x)^%d" % (m, m)) + " on (x%d, x%d]" % (k, k + 1)
                 v = prove_zero(tot, what)
-                log.decide(v, key="evaluate_x:partition" if m == 0 else "evaluate_x:reproduce",
+                decide(log, v, key="evaluate_x:partition" if m == 0 else "evaluate_x:reproduce",
                            replay=(MOD, "replay_basis", dict(kw, k=k, m=m)), sampler=_sampler(n, mode))
         # -- nodes
         for k in range(n):
             vals = [bf.evaluate_x(xs[k]) for bf in d]
             for j, v in enumerate(vals):
                 ver = prove_zero(v - (1 if j == k else 0), "p_%d(x%d) == %d" % (j, k, j == k))
-                log.decide(ver, key="evaluate_x:cardinal", replay=(MOD, "replay_node", dict(kw, j=j, k=k)), sampler=_sampler(n, mode))
+                decide(log, ver, key="evaluate_x:cardinal", replay=(MOD, "replay_node", dict(kw, j=j, k=k)), sampler=_sampler(n, mode))
         log.twin("sorted grid")
         log.collect_ctx()
 
@@ -277,8 +309,6 @@ def case_reinterp(log, mode, n, deg, free, generic=0):
     log.encode(ip.InterpolatorDispatcher.get_interpolation, ip.InterpolatorDispatcher.__init__, ip.BasisFunction.evaluate_x,
                ip.evaluate_x, ip.log_evaluate_x, ip.Area._compute_coefs, ip.XGrid.__init__)
     eps = ip._atol_eps
-    state = {"violated": set()}
-
     def run():
         xs, us, xg, d, ax = build(ip, n, deg, mode, False)
         if generic:
@@ -322,14 +352,12 @@ def case_reinterp(log, mode, n, deg, free, generic=0):
                     tot = tot + R[i][j] * us[j] ** m
                 what = "row %d of get_interpolation reproduces u^%d%s" % (i, m, " (early-exit branch: targets 'close' to the nodes)" if early else "")
                 v = prove_zero(tot, what)
-                if not v.holds and key in state["violated"]:
-                    # same defect already replayed on another path of this case: record the open obligation only
-                    log.obligations.append({"case": log.case, "what": what, "status": v.status, "time_s": round(v.time, 4), "residual_terms": v.nterms})
-                    continue
-                ok = log.decide(v, key=key, replay=(MOD, "replay_reinterp", {"mode": mode, "n": n, "deg": deg, "tnames": tnames, "m": m}),
-                                sampler=_sampler(n, mode, tnames), candidates=_close_candidates(n, tnames) if early else ())
-                if not ok and log.violations and log.violations[-1]["key"] == key:
-                    state["violated"].add(key)
+                cands = ()
+                if early and not v.holds:  # try the grid reaching x = 1e-9 first, then the solver's own model
+                    cands = _close_candidates(n, tnames) + ([v.model] if v.model else [])
+                    v.model = None
+                decide(log, v, key=key, replay=(MOD, "replay_reinterp", {"mode": mode, "n": n, "deg": deg, "tnames": tnames, "m": m}),
+                       sampler=_sampler(n, mode, tnames), candidates=cands)
         log.twin("sorted grid + targets")
         log.collect_ctx()
 
@@ -370,7 +398,7 @@ def case_reject_degree(log, mode, n):
         bad = z3.Or(deg.e < 1, deg.e >= n)
         goal = bad if rejected else z3.Not(bad)
         v = prove_formula(goal, "%d nodes: %s => degree %s" % (n, "ValueError" if rejected else "accepted", "< 1 or >= len(grid)" if rejected else "in 1..len(grid)-1"))
-        log.decide(v, key="InterpolatorDispatcher.__init__:degree-check", replay=(MOD, "replay_reject_degree", {"mode": mode, "n": n}),
+        decide(log, v, key="InterpolatorDispatcher.__init__:degree-check", replay=(MOD, "replay_reject_degree", {"mode": mode, "n": n}),
                    candidates=[{"deg": str(k)} for k in range(-1, n + 2)])
         log.twin("degree range")
 
@@ -407,7 +435,7 @@ def case_reject_duplicates(log, mode, n):
             sorted_ = z3.And([S.poly_to_z3((raw[i + 1] - raw[i]).v.n) > 0 for i in range(len(raw) - 1)] + [z3.BoolVal(len(raw) == n)])
             member = z3.And([z3.Or([S.poly_to_z3((r - x).v.n) == 0 for x in xs]) for r in raw] + [z3.BoolVal(True)])
             v = prove_formula(z3.And(good, sorted_, member), "XGrid(%d points) accepted => all distinct, stored grid is the sorted input" % n)
-        log.decide(v, key="XGrid.__init__:uniqueness-check", replay=(MOD, "replay_reject_duplicates", {"mode": mode, "n": n}),
+        decide(log, v, key="XGrid.__init__:uniqueness-check", replay=(MOD, "replay_reject_duplicates", {"mode": mode, "n": n}),
                    candidates=_dup_candidates(n))
         log.twin("positive points")
 
@@ -731,7 +759,7 @@ def main():
         "numpy.log on nodes/points: one interned atom per argument; axiom instances 'ln strictly increasing' (a<b <=> ln a<ln b, a=b <=> ln a=ln b) for all occurring pairs",
         "numpy.allclose / isclose: numpy's documented formula |a-b| <= atol + rtol*|b| with the defaults the code uses (rtol=1e-5, atol=1e-8)",
     ]
-    chk.assumptions = ["floats in the source are read as the exact rationals they denote", "x_0 > 0 (log) / x_0 >= 0 (linear), nodes strictly increasing"]
+    chk.assumptions = ["floats in the source are read by the engine's float reading (symx.poly.tofrac)", "x_0 > 0 (log) / x_0 >= 0 (linear), nodes strictly increasing"]
     if thorough:
         pairs = [(n, d) for n in range(2, 9) for d in range(1, 5) if d < n]
         rein = [(n, d) for n in (3, 4, 5, 6, 7, 8) for d in (1, 2, 3, 4) if d < n]
